@@ -16,6 +16,15 @@ import (
 
 const verifRoot = "/verif"
 
+// outRoot is where evidence and replay files go: /verif normally, a scratch directory for self-tests
+// (VERIF_OUT), so that mutant runs never overwrite the evidence of the real tree.
+func outRoot() string {
+	if d := os.Getenv("VERIF_OUT"); d != "" {
+		return d
+	}
+	return verifRoot
+}
+
 // PropConfig is the per-property configuration in /verif/props.json.
 type PropConfig struct {
 	Packages   []string `json:"packages"`
@@ -85,7 +94,7 @@ func runCheck(prop string, thorough bool, repo string, writeExpected bool) int {
 	loadJSON(filepath.Join(verifRoot, "expected_obligations.json"), &expected)
 
 	eng, err := vc.Load(repo, pc.Packages, filepath.Join(verifRoot, "prelude"))
-	replayPath := filepath.Join(verifRoot, "out", "replay", prop+".json")
+	replayPath := filepath.Join(outRoot(), "out", "replay", prop+".json")
 	os.MkdirAll(filepath.Dir(replayPath), 0o755)
 	if err != nil {
 		// the tree does not load (type error, contract parse error): the proof cannot be regenerated
@@ -284,7 +293,7 @@ func isContractLabelled(o *vc.Obligation) bool {
 }
 
 func saveQuery(prop string, o *vc.Obligation) string {
-	dir := filepath.Join(verifRoot, "out", "replay", prop+"-queries")
+	dir := filepath.Join(outRoot(), "out", "replay", prop+"-queries")
 	os.MkdirAll(dir, 0o755)
 	p := filepath.Join(dir, sanitizeFile(o.Name)+".smt2")
 	os.WriteFile(p, []byte(o.Query+"(check-sat)\n"), 0o644)
@@ -401,9 +410,9 @@ func writeEvidence(prop, tier string, seed int, t0 time.Time, reports []*vc.Unit
 		"wall_s":      time.Since(t0).Seconds(),
 		"violations":  violations,
 	}
-	os.MkdirAll(filepath.Join(verifRoot, "evidence"), 0o755)
+	os.MkdirAll(filepath.Join(outRoot(), "evidence"), 0o755)
 	b, _ := json.MarshalIndent(ev, "", " ")
-	os.WriteFile(filepath.Join(verifRoot, "evidence", prop+".json"), append(b, '\n'), 0o644)
+	os.WriteFile(filepath.Join(outRoot(), "evidence", prop+".json"), append(b, '\n'), 0o644)
 }
 
 func trustedBase(assumed []string) []string {
